@@ -78,10 +78,10 @@ pub enum Resp {
     Failed(String),
     Read(ReadRes),
     /// Pending, or Ready(n written) — `started` tells whether this step created the future
-    Write { started: bool, res: Option<Result<usize, String>> },
+    Write { res: Option<Result<usize, String>> },
     /// CloseIn: true = closed now, false = a write is in flight (nothing done)
     Closed(bool),
-    Wait { started: bool, res: Option<Result<ExitStatus, String>> },
+    Wait { res: Option<Result<ExitStatus, String>> },
     Output { res: Option<Result<(ExitStatus, Vec<u8>, Vec<u8>), String>> },
     Harvest { rounds: u32, woken: [bool; 4], timed_out: bool, unsettled: bool },
     Ended,
@@ -252,15 +252,13 @@ impl Exec {
         let rt = self.rt.clone();
         rt.enter(|| {
             self.mark_polled(SLOT_IN);
-            let mut started = false;
             if self.in_fut.is_none() {
                 let Some(data) = data else {
-                    return Resp::Write { started: false, res: None };
+                    return Resp::Write { res: None };
                 };
                 let Some(mut h) = self.stdin.take() else {
                     return Resp::Failed("stdin already closed".into());
                 };
-                started = true;
                 self.in_fut = Some(Box::pin(async move {
                     let BufResult(r, _buf) = h.write(data).await;
                     (h, r.map_err(|e| e.to_string()))
@@ -268,11 +266,11 @@ impl Exec {
             }
             let mut cx = Context::from_waker(&self.wakers[SLOT_IN]);
             match self.in_fut.as_mut().unwrap().as_mut().poll(&mut cx) {
-                Poll::Pending => Resp::Write { started, res: None },
+                Poll::Pending => Resp::Write { res: None },
                 Poll::Ready((h, r)) => {
                     self.in_fut = None;
                     self.stdin = Some(h);
-                    Resp::Write { started, res: Some(r) }
+                    Resp::Write { res: Some(r) }
                 }
             }
         })
@@ -289,24 +287,22 @@ impl Exec {
 
     fn wait_poll(&mut self) -> Resp {
         if self.wait_done {
-            return Resp::Wait { started: false, res: None };
+            return Resp::Wait { res: None };
         }
         let rt = self.rt.clone();
         rt.enter(|| {
             self.mark_polled(SLOT_WAIT);
-            let mut started = false;
             if self.wait_fut.is_none() {
                 let child = self.child.take().expect("child handle");
-                started = true;
                 self.wait_fut = Some(Box::pin(child.wait()));
             }
             let mut cx = Context::from_waker(&self.wakers[SLOT_WAIT]);
             match self.wait_fut.as_mut().unwrap().as_mut().poll(&mut cx) {
-                Poll::Pending => Resp::Wait { started, res: None },
+                Poll::Pending => Resp::Wait { res: None },
                 Poll::Ready(r) => {
                     self.wait_fut = None;
                     self.wait_done = true;
-                    Resp::Wait { started, res: Some(r.map_err(|e| e.to_string())) }
+                    Resp::Wait { res: Some(r.map_err(|e| e.to_string())) }
                 }
             }
         })
